@@ -13,8 +13,8 @@ STACKS_T = STACKS_Q + ';http:redir(mem);http(http:redir+omitdigest(mem));http:pa
 def run(ctx):
     quick = ctx.tier == 'quick'
     vlib.model_check(ctx, 'OciRegistryMC.tla', 'OciRegistryMC_quick.cfg', what='reference model behind the wire')
-    rc.reg_check(ctx, STACKS_Q if quick else STACKS_T, STRICT, n_tlc=10 if quick else 300, n_rand=30 if quick else 1200,
-                 cover='OciRegistryCover_all.cfg', cover_sample=250 if quick else 12000, uploads=40 if quick else 800,
+    rc.reg_check(ctx, STACKS_Q if quick else STACKS_T, STRICT, n_tlc=10 if quick else 200, n_rand=30 if quick else 700,
+                 cover='OciRegistryCover_all.cfg', cover_sample=250 if quick else 4000, uploads=40 if quick else 400,
                  profiles=('all', 'range'), tlc_cfg='OciRegistryGenNoUp.cfg', honest=True, label='client/server stacks vs OciRegistry')
     # any caller of the upload calls (resume at any offset, data travelling with the closing PUT, wrong digests):
     # the error codes of refusals have to come through the wire as well
